@@ -365,6 +365,28 @@ for _p in ("sub", "sup_old", "sup_new"):
 
 
 @R.specfunc()
+def refines(eng, st, groups_new, groups_old, dist):
+    """Every new group lies inside ONE old group and entirely on one side of the new key set, or consists only of keys that are
+    new (in the new key set, in no old group).  The witness is named: filter_src(new list, j) is the position of the j-th new
+    group in the intermediate list [G0 & D, G0 - D, G1 & D, G1 - D, ..., D - all]."""
+    D0 = _row(eng, st, dist)
+    m = eng.list_len(st, groups_old)
+    j, q = z3.Int("rf_j"), z3.Int("rf_q")
+    nm = z3.String("rf_name")
+    key = SV(KStr, nm)
+    gj = eng.list_get(st, groups_new, j)
+    fs = _lib.filter_src(groups_new.term, j)
+    gsrc = eng.list_get(st, groups_old, fs / 2)
+    gq = eng.list_get(st, groups_old, q)
+    has_j = eng.dict_has(st, gj, key)
+    return SV(KBool, qforall([j, nm], z3.Implies(z3.And(0 <= j, j < eng.list_len(st, groups_new), has_j), z3.And(
+        0 <= fs, fs <= 2 * m,
+        z3.Implies(fs < 2 * m, z3.And(eng.dict_has(st, gsrc, key), D0[nm] == ((fs % 2) == 0))),
+        z3.Implies(fs == 2 * m, z3.And(D0[nm], qforall([q], z3.Implies(z3.And(0 <= q, q < m), z3.Not(eng.dict_has(st, gq, key))),
+                                                       patterns=[eng.dict_has(st, gq, key)]))))), patterns=[has_j]))
+
+
+@R.specfunc()
 def old_containers_unchanged(eng, st):
     """Every list/dict/set object allocated before the call keeps its contents (only the field self._search_spaces is
     re-pointed, to a fresh list)."""
@@ -404,6 +426,8 @@ R.spec(GD, "_SearchSpaceGroup.add_distributions", props=["C17"],
            "fresh(self._search_spaces)",
            # the new groups are again non-empty and pairwise disjoint: a partition of the keys seen so far
            "groups_wf(self._search_spaces)",
+           # refinement: a set of names that was a union of old groups is a union of new groups, and so is the new key set
+           "refines(self._search_spaces, old(self._search_spaces), distributions)",
        ])],
        ensures_all=["old_containers_unchanged()"],
        loops={0: loop(index="_i", invariant=[
@@ -491,16 +515,54 @@ def covered_upto(eng, st, trials, upto, groups):
     return SV(KBool, qforall([i, nm], z3.Implies(z3.And(0 <= i, i < upto.term, has_t), in_groups), patterns=[has_t]))
 
 
+def _union_body(eng, st, t, groups, extra):
+    """A group that shares one name with the trial's parameter set lies entirely inside it."""
+    j = z3.Int("ub_j")
+    n1, n2 = z3.String("ub_n1"), z3.String("ub_n2")
+    k1, k2 = SV(KStr, n1), SV(KStr, n2)
+    gj = eng.list_get(st, groups, j)
+    d = _dists(eng, st, t)
+    h1, h2 = eng.dict_has(st, gj, k1), eng.dict_has(st, gj, k2)
+    return [j, n1, n2], z3.Implies(z3.And(extra, 0 <= j, j < eng.list_len(st, groups), h1, h2, eng.dict_has(st, d, k1)), eng.dict_has(st, d, k2)), \
+        z3.MultiPattern(h1, h2, t.term)
+
+
+@R.specfunc()
+def unions_upto(eng, st, trials, upto, groups):
+    """The parameter set of each of the first `upto` listed trials is a union of groups."""
+    i = z3.Int("uu_i")
+    t = eng.list_get(st, trials, i)
+    vs, body, pat = _union_body(eng, st, t, groups, z3.And(0 <= i, i < upto.term))
+    return SV(KBool, qforall([i] + vs, body, patterns=[pat]))
+
+
+@R.specfunc()
+def all_unions(eng, st, self_sv, study, group):
+    """The parameter set of every current trial of interest is a union of groups."""
+    storage = eng.get_field(st, study, "_storage")
+    sid = eng.get_field(st, study, "_study_id")
+    ip = eng.get_field(st, self_sv, "_include_pruned").term
+    groups = eng.get_field(st, group, "_search_spaces")
+    t = z3.Int("au_t")
+    tv = SV(KRef("FrozenTrial"), t)
+    s = eng.get_field(st, tv, "state").term
+    vs, body, pat = _union_body(eng, st, tv, groups, z3.And(_study._as_trial(storage.term, sid.term, t), _contributes(s, ip)))
+    return SV(KBool, qforall([t] + vs, body, patterns=[pat]))
+
+
 R.spec(GD, "_GroupDecomposedSearchSpace.calculate", props=["C17"], types={"study": "Study"},
        requires=["groups_wf(self._search_space._search_spaces)"],
        cases=[case("other-study", when="self._study_id is not None and self._study_id != study._study_id", raises="ValueError"),
               case("ok", any_outcome=True, ensures_return=[
                   "fresh(result) and fresh(result._search_spaces)",
                   # the returned (copied) groups cover the parameters of every current trial of interest
-                  "all_covered(self, study, result)", "all_covered(self, study, self._search_space)"])],
+                  "all_covered(self, study, result)", "all_covered(self, study, self._search_space)",
+                  # ... and every such trial's parameter set is a union of groups
+                  "all_unions(self, study, self._search_space)", "all_unions(self, study, result)"])],
        loops={0: loop(index="_i", invariant=[
            "0 <= _i", "groups_wf(self._search_space._search_spaces)", "self._search_space is old(self._search_space)",
            "covered_upto(_seq, _i, self._search_space._search_spaces)", "old_containers_unchanged()",
+           "unions_upto(_seq, _i, self._search_space._search_spaces)",
        ], modifies=["S:*:set<str>", "L:*:list<dict<str,ref:BaseDistribution>>", "D:*:dict<str,ref:BaseDistribution>", "G:is_tuple",
                     "F:_SearchSpaceGroup._search_spaces"])},
        modifies=["S:*:set<str>", "L:*", "D:*:dict<str,ref:BaseDistribution>", "G:is_tuple",
